@@ -110,6 +110,8 @@ PROPS["C09"] = {
         {"name": "C09ServerResponse", "pkg": CC, "test": "TestVerifC09ServerResponse", "kind": "enum"},
         # the reference client's exported Run on a truncated standard input (binary and JSON), told to stop or not
         {"name": "C09ClientStdin", "pkg": RC, "test": "TestVerifC09ClientStdin", "kind": "enum"},
+        # zero-length messages over an io.Pipe, then a quiet peer
+        {"name": "C09EmptyMessage", "pkg": INT, "test": "TestVerifC09EmptyMessage", "kind": "enum"},
         {"name": "C09Fuzz", "pkg": INT, "test": "FuzzVerifC09Stream", "kind": "fuzz", "fuzz_target": "FuzzVerifC09Stream",
          "only_tiers": ["thorough"], "fuzztime": {"thorough": "60s"}, "workers": 16, "timeout": {"thorough": 600}},
     ],
